@@ -1445,7 +1445,8 @@ class Stage:
         ret.parameters = deepcopy(self.parameters)
         ret.variables = deepcopy(self.variables)
 
-        ret._offsets = deepcopy(self._offsets)
+        # The operands of next/prev/offset may mention the template's placeholders too
+        ret._offsets = self._offsets.__class__((k, (subst(e), o)) for k, (e, o) in self._offsets.items())
         ret._param_vals = copy(self._param_vals)
         ret._state_der = HashDict((k, subst(v)) for k, v in self._state_der.items())
         ret._scale_der = copy(self._scale_der)
